@@ -383,9 +383,11 @@ type c13Hang struct {
 }
 
 type c13Reg struct {
-	tok     []byte
-	tokZ    int
-	obs     interface{ Cancel(ctx context.Context, opts ...message.Option) error }
+	tok  []byte
+	tokZ int
+	obs  interface {
+		Cancel(ctx context.Context, opts ...message.Option) error
+	}
 	live    bool
 	path    string
 	seq     uint32
@@ -968,7 +970,9 @@ func (p *c13Run) opObserve(k int, dup bool) {
 	id := len(p.regs)
 	p.regs = append(p.regs, reg)
 	r := p.limIn(k)
-	var obs interface{ Cancel(ctx context.Context, opts ...message.Option) error }
+	var obs interface {
+		Cancel(ctx context.Context, opts ...message.Option) error
+	}
 	err, ok := p.call(func() error {
 		o, err := p.a.cc.Observe(context.Background(), path, func(n *pool.Message) {
 			reg.gotLock.Lock()
